@@ -77,6 +77,16 @@ def take1(cb: Callable[[int], int]) -> None: ...
 def takeany(cb: Callable[..., Any]) -> None: ...
 def takeps(cb: Callable[PS, TT], *a: PS.args, **k: PS.kwargs) -> TT: ...
 
+HT = ("a", [1])           # nominally hashable (a tuple), hash() raises
+HTD = ("a", {"k": 1})
+HTS = ((1, {2}),)
+
+class HashTE:
+    def __hash__(self):
+        raise TypeError("unhashable HashTE")
+
+HTE = HashTE()
+
 type PA[**P] = Callable[P, int]
 type PB[**P, T] = Callable[P, T]
 type PC[T, **P] = Callable[Concatenate[T, P], T]
@@ -329,6 +339,16 @@ def _table(A: str, B: str, AN: str) -> dict[str, list[str]]:
                            "def r4(c):", "    if c:", f"        return {A}", "    elif c is None:", "        return bool", "    return int", "def r5(c):", "    return [int, str][c]", "def r6(c):", "    if c:", "        return enum.Enum",
                            "    return enum.IntEnum", "r1(1).nope", "r2(1)().nope", "r4(0).nope"],
         "return_metaclass": ["def m1(c):", "    if c:", "        return int", "    return type", "def m2(c):", "    if c:", "        return HelperCls", "    return enum.EnumMeta", "m1(1).nope"],
+        # ---------------------------------------------------------------- known objects that are nominally fine but raise when hashed
+        # (the callers of safe.is_hashable / safe_in / safe_equals and the places that hash or compare known objects)
+        "unhashable_ops": ["{HT}", "{HT: 1}", "{1: 2}[HT]", "{HT: 1}[HT]", "HT in {1, 2}", "HT in (HT, 1)", "HT in {HT: 1}", "HT in [HT]", "{1: 2}.get(HT)", "{1, 2}.add(HT)", "set([HT])", "dict([(HT, 1)])",
+                           "frozenset([HT, HTD])", "hash(HT)", "HT == HT", "HT == HTD", "[HT].index(HT)", "[HT].count(HTD)", "(HT,).index(HT)", f"d = {{{A}: 1}}", "d[HT]", "d[HT] = 1", "del d[HT]", "d.get(HTD)",
+                           "d.setdefault(HTS, 1)", "d.pop(HT)", "HT in d", f"{{HT, {A}}}", f"{{HT: {A}, {A}: HT}}", "{**{HT: 1}}", "{*[HT]}", "{HTE}", "{HTE: 1}", "{1: 2}[HTE]", "HTE in {1, 2}", "HTE in (HTE,)",
+                           "hash(HTE)", "lit: Literal[1] = HT", "def lf(x: Literal[1, 2] = HT) -> None: ...", "lf(HT)", "lf(HTE)", "match HT:", "    case (\"a\", [1]):", "        pass", "    case (\"a\", _):",
+                           "        pass", "match HTE:", "    case 1 | 2:", "        pass", "isinstance(HT, (int, HT))", "isinstance(HT, HTE)", "issubclass(HT, int)", "functools.lru_cache()(helper_fn)(HT)",
+                           "sorted({HT})", "set() | {HT}", "{1, 2} - {HTE}", "(HT, HTD)[HT]", f"[1, 2][{A}] in {{HT}}", "enum.Enum(\"EX\", {\"A\": HT})", "x1: \"HT\" = HT", "assert_type(HT, Literal[1])",
+                           "reveal_type(HT) in {HT}", "{HT: 1}.keys() & {HTE}", "[k for k in {HT: 1}]", "{k: v for k, v in [(HT, HTE)]}", "{v for v in [HT, HTE]}", "max({HT: 1})", "sum([HTE])", "HT < HTE", "HTE == HTE", "HTE != 1",
+                           "if HT in (HTD, HTS) or HTE in (1,):", "    pass", f"{A} in (HT, HTE)", f"{A} in {{HT: 1}}", f"HT[{A}]", f"{{1: 2}}[{A}, HT]"],
         # ---------------------------------------------------------------- open findings, confined to kinds of their own
         # (version_info_compare: repaired by 55a5b7d, kept as regression generator; paramspec_alias: Totality.tla Dev_ParamSpecSubstitution)
         "version_info_compare": [f"if sys.version_info > {A}:", "    pass", f"v1 = sys.version_info < {A}", f"v2 = sys.version_info >= (3, {A})", f"v3 = sys.version_info <= ({A},)",
